@@ -21,16 +21,28 @@ RULE = ("(A) addrparse()+bmfcheck()+addrallowed() called directly: every string 
         "under fixed and generated configurations of rcpthosts / morercpthosts.cdb (built by the real qmail-newmrh) / badmailfrom / localiphost / "
         "RELAYCLIENT / queue verdict. Compared with the Lean model on the full reply stream, exit status and every envelope handed to the queue; "
         "the oracle rebuilds the trace from the implementation's replies and evaluates the sequencing (SubmitOK) and gating (GateOK <-> 250) "
-        "predicates of Nq/Spec/SmtpPolicy.lean on it. non-trivial = distinct case with an address containing @ or <, or a session with a RCPT that "
-        "reaches the policy decision")
+        "predicates of Nq/Spec/SmtpPolicy.lean on it, and the documented badmailfrom/rcpthosts/RELAYCLIENT rules of Nq/Spec/SmtpPolicyDoc.lean "
+        "(A: on the three verdicts; S: on every RCPT answer). Every session also reports the calls commands() made into smtpcommands[] "
+        "(recorded by wrappers around the real handlers): the oracle cuts the input with the independent line/word splitter of "
+        "Nq/Spec/CmdLine.lean (message bodies skipped with the C05 reference decoder) and requires the same (entry, argument) list; the "
+        "model side is SmtpCmdIO.runIO on a 1024-byte substdio with the harness's read sizes. "
+        "(F) commands() called directly on a scripted substdio (buffer sizes 1..1024 and larger, read scripts with short reads and a failing "
+        "read) with recording handlers: every stream over {a B space CR LF NUL} up to length %s under a synthetic table (shadowed entry, "
+        "empty text, text with a blank, the characters next to the letter ranges), fixed streams and seeded streams of up to 14 lines under "
+        "both the synthetic table and the texts of the real smtpcommands[] (re-cased / bit-5-flipped / truncated / extended verbs, blanks "
+        "before, between and after, arguments with NUL CR TAB and 8-bit bytes, LF / CRLF / CRCRLF / CR-blank-LF / NUL-LF line ends, lines of "
+        "1000..67000 bytes, unterminated tails); DISAGREE = SmtpCmdIO.commandsIO on the same buffer size and script, ORACLE = "
+        "CmdLineSpec.specCalls on the bytes delivered before the first failing read, return value 0 / -1. "
+        "non-trivial = distinct case with an address containing @ or <, a session with a RCPT that reaches the policy decision, or a stream "
+        "with at least one dispatched call")
 
 run_standard("C08", "Nq.Props.C08", "drv_c08", "harness/c08_session.c", "qmail-smtpd",
              ["qmail.o", "timeoutread.o", "timeoutwrite.o", "rcpthosts.o", "ipme.o", "auto_qmail.o"],
-             "5 4 3 6000", "6 5 4 120000", {"quick": RULE % (5, 5, 4, 3), "thorough": RULE % (6, 6, 5, 4)},
-             "Nq/SmtpSession.lean (run/sstep/addrparse/bmfcheck/rcpthostsMatch) vs qmail-smtpd.c + commands.c + rcpthosts.c + control.c + constmap.c + "
-             "cdb_seek.c + ip.c + qmail-newmrh.c",
-             alphabet=b"a@.<>\"\\:[] \r\nMAILRCPTDO0",
-             stdin_prefixes=("S 2 0", "S 4 1", "S 1 0", "S 10 0", "A 2", "A 6", "A 10"),
+             "5 4 3 6000", "6 5 4 120000", {"quick": RULE % (5, 5, 4, 3, 6), "thorough": RULE % (6, 6, 5, 4, 7)},
+             "Nq/SmtpSession.lean (run/sstep/addrparse/bmfcheck/rcpthostsMatch) + Nq/SmtpCmdIO.lean (commandsIO/runIO over substdio) vs qmail-smtpd.c + "
+             "commands.c (+ substdi.c) + rcpthosts.c + control.c + constmap.c + cdb_seek.c + ip.c + qmail-newmrh.c",
+             alphabet=b"a@.<>\"\\:[] \r\nMAILRCPTDO0\x00\tB",
+             stdin_prefixes=("S 2 0", "S 4 1", "S 1 0", "S 10 0", "A 2", "A 6", "A 10", "F 0 1024 -", "F 1 2 0101", "F 1 1 -"),
              extra_cc=os.path.join(os.path.dirname(os.path.abspath(__file__)), "..", "harness", "c08_newmrh.c") +
                       " cdbmss.o cdbmake.a strerr.a open.a getln.a case.a stralloc.a substdio.a error.a str.a",
              assumptions=[
